@@ -91,6 +91,22 @@ func runC18(c *Collector, r *Rng, thorough bool) {
 				func() string { return res(as.MarshalCBOR()) },
 			}})
 		}
+		// --- a message assembled from the header bytes alone (Protected / Unprotected maps left nil), as a relay that
+		// never decodes the buckets does; and a signer layer of the same kind ---
+		if praw, err := m.Headers.MarshalProtected(); err == nil {
+			uraw, _ := m.Headers.MarshalUnprotected()
+			rm := &cose.Sign1Message{Headers: cose.Headers{RawProtected: append([]byte{}, praw...), RawUnprotected: append([]byte{}, uraw...)}, Payload: m.Payload, Signature: append([]byte{}, m.Signature...)}
+			rcs := &cose.Countersignature{Headers: cose.Headers{RawProtected: append([]byte{}, praw...)}, Signature: []byte{1, 2, 3}}
+			rsg := &cose.Signature{Headers: cose.Headers{RawProtected: append([]byte{}, praw...), RawUnprotected: []byte{0xa0}}, Signature: []byte{1, 2, 3}}
+			vals = append(vals, shared{"sign1-raw-only/" + k.alg.String(), func() string { return oSign1(rm) + oSigv((*cose.Signature)(rcs)) + oSigv(rsg) }, []func() string{
+				func() string { return res(nil, rm.Verify(ext, vf)) },
+				func() string { return res(rm.MarshalCBOR()) },
+				func() string { return res(nil, rm.Verify([]byte("other"), vf)) },
+				func() string { return res(nil, rcs.Verify(vf, rm, ext)) },
+				func() string { return res(nil, rsg.Verify(vf, []byte{0x40}, []byte("p"), ext)) },
+				func() string { return res(nil, cose.VerifyCountersign0(vf, rm, ext, []byte{1, 2, 3})) },
+			}})
+		}
 		// --- decoded Sign1 with non-canonical protected bstr head (slow path of the bstr normalisation) ---
 		if b, err := m.MarshalCBOR(); err == nil {
 			if t, err := refParseFull(b); err == nil {
@@ -159,6 +175,32 @@ func runC18(c *Collector, r *Rng, thorough bool) {
 					_, err := ck.PublicKey()
 					return res(nil, err)
 				},
+			}})
+		}
+		// a key that does not name its algorithm (alg is optional in a COSE_Key): the algorithm is derived on use
+		if ck, err := cose.NewKeyFromPrivate(k.priv); err == nil {
+			ck.Algorithm = cose.AlgorithmReserved
+			vals = append(vals, shared{"key-without-alg/" + k.alg.String(), func() string { return snapshotKey(ck) }, []func() string{
+				func() string { return res(ck.MarshalCBOR()) },
+				func() string {
+					v, err := ck.Verifier()
+					if err != nil {
+						return "err:" + errClass(err)
+					}
+					return fmt.Sprint("alg", v.Algorithm())
+				},
+				func() string {
+					v, err := ck.Signer()
+					if err != nil {
+						return "err:" + errClass(err)
+					}
+					return fmt.Sprint("alg", v.Algorithm())
+				},
+				func() string {
+					a, err := ck.AlgorithmOrDefault()
+					return fmt.Sprint("alg", a, err)
+				},
+				func() string { return res(ck.MarshalCBOR()) },
 			}})
 		}
 		// a key as it comes off the wire: key_ops with a repeated entry ([2, "verify", 1] decodes to verify, verify, sign),
